@@ -1,7 +1,13 @@
 import Geo.Props.C09
+import Geo.Props.C09b
 #print axioms Geo.T09_1_brackets
 #print axioms Geo.T09_1_dist_sq
 #print axioms Geo.T09_1_symmetric
 #print axioms Geo.T09_3_foot_2d
 #print axioms Geo.T09_3_foot_3d
 #print axioms Geo.T09_5_laguerre
+#print axioms Geo.ang_closed
+#print axioms Geo.T09_5_antisymmetric
+#print axioms Geo.T09_5_unit_modulus
+#print axioms Geo.T09_5_isometry
+#print axioms Geo.T09_3_dist_point_line_sq
